@@ -21,16 +21,16 @@ func (c21) ID() string { return "C21" }
 
 func (c21) Budget(tier string) int {
 	if tier == "thorough" {
-		return 2048*3 + 224*3 + 60
+		return 2048*3 + 224*3 + 400
 	}
-	return 64*3 + 64 + 12
+	return 64*3 + 64 + 48
 }
 
 func (c21) Describe() engine.Info {
 	return engine.Info{
 		Rule:           "channel 1/2: duty steps counted over a window of K whole periods of 4x(2048-f) clocks must be exactly K (K chosen so that the window is about 20,000 machine cycles); channel 3: wave positions advanced over a window of K periods of 2x(2048-f) clocks (K even); channel 4: machine cycles between changes of the shift register = d(r)x2^s / 4 for every NR43 value with s<=13, and the output bit sequence at r=0,s=0 has period 32767 (15-bit) / 127 (7-bit) and no shorter period. quick: 64 frequencies per channel incl. 0, 1, 2046, 2047 and 64 NR43 values; thorough: all. While a channel is measured the other channels are triggered at random cycles. Signature = (channel, frequency or NR43 bucket).",
 		Assumptions:    []string{"waveform positions are read through the verif accessor (duty index, wave position, shift register)", "the first period after a trigger is not judged (the reload delay after a trigger is not part of the statement)"},
-		RequiredProbes: []string{"retuned_without_trigger", "square_periods", "wave_periods", "noise_periods", "lfsr15_period", "lfsr7_period", "other_channel_triggered_during_measurement"},
+		RequiredProbes: []string{"sweep_changed_the_frequency", "retuned_without_trigger", "square_periods", "wave_periods", "noise_periods", "lfsr15_period", "lfsr7_period", "other_channel_triggered_during_measurement"},
 		RealComponents: realComponents, StubComponents: stubComponents,
 	}
 }
@@ -80,6 +80,16 @@ func (c21) Generate(r *engine.Rand, index int, tier string) *engine.Scenario {
 		s, w, rr := v/16, v/8%2, v%8
 		sc.SetP("nr43", int64(s<<4|w<<3|rr))
 	default:
+		if index%4 >= 2 {
+			// channel 1 while its sweep unit rewrites the frequency (subtraction mode: the frequency
+			// shrinks by f>>s at every sweep clock until f>>s is 0): the waveform follows the frequency
+			sc.Class = "sweep"
+			sc.SetP("ch", 6)
+			sc.SetP("f", int64(r.Range(64, 2047)))
+			sc.SetP("shift", int64(r.Range(1, 3)))
+			sc.SetP("period", int64(r.Range(1, 3)))
+			break
+		}
 		sc.Class = "lfsr"
 		sc.SetP("ch", 5)
 		sc.SetP("nr43", int64((index%2)<<3))
@@ -249,6 +259,73 @@ func (c21) Execute(sc *engine.Scenario) *engine.Result {
 		}
 		res.Probe("noise_periods")
 		res.Sig(fmt.Sprintf("ch4/s=%d/r=%d/w=%d", s, rr, nr43>>3&1))
+	case 6:
+		f0, sh, p := int(sc.P("f", 1024)), uint(sc.P("shift", 1)), int(sc.P("period", 1))
+		seq := []int{f0}
+		for {
+			f := seq[len(seq)-1]
+			if f>>sh == 0 {
+				break
+			}
+			seq = append(seq, f-f>>sh)
+		}
+		m.Write(0xff10, uint8(p<<4)|0x08|uint8(sh))
+		m.Write(0xff12, 0xf0)
+		m.Write(0xff13, uint8(f0))
+		m.Write(0xff14, 0x80|uint8(f0>>8))
+		duty := func() int { return int(m.APU.VerifWave().Duty1) }
+		// every interval between two waveform steps is the period of one of the frequencies of the
+		// sequence, and the sequence is walked forwards only; long enough for every sweep clock
+		// (one per `period` x 8192 machine cycles) plus a margin, then whole periods at the final rate
+		total := uint64(len(seq)+2)*uint64(p)*8192 + 3*2048
+		last, lastAt, k, seen := duty(), uint64(0), 0, 0
+		bad := ""
+		m.OnCycle = func() {
+			d := duty()
+			if d == last || bad != "" {
+				return
+			}
+			if (d-last+8)%8 != 1 {
+				bad = fmt.Sprintf("the duty position jumped from %d to %d", last, d)
+			}
+			if lastAt != 0 && seen >= 1 {
+				iv := int(m.N - lastAt)
+				j := k
+				for j < len(seq) && 2048-seq[j] != iv {
+					j++
+				}
+				if j == len(seq) {
+					bad = fmt.Sprintf("a waveform step came %d machine cycles after the previous one; the frequencies from here on are %v (one step per 2048-f machine cycles)", iv, seq[k:])
+				} else {
+					if j > k {
+						res.Probe("sweep_changed_the_frequency")
+					}
+					k = j
+				}
+			}
+			seen++
+			last, lastAt = d, m.N
+		}
+		m.RunCycles(total)
+		if bad == "" && k != len(seq)-1 {
+			bad = fmt.Sprintf("after %d machine cycles (%d sweep clocks at least) the waveform still steps at the rate of frequency %d, the sweep unit has long reached %d", total, len(seq)+1, seq[k], seq[len(seq)-1])
+		}
+		if bad == "" {
+			// whole periods at the final frequency
+			want := 2048 - seq[len(seq)-1]
+			n0, at0 := seen, m.N
+			m.RunCycles(uint64(want) * 6)
+			if got := seen - n0; got < 5 || got > 7 {
+				bad = fmt.Sprintf("%d waveform steps in %d machine cycles at the final frequency %d, expected 6", got, m.N-at0, seq[len(seq)-1])
+			}
+		}
+		m.OnCycle = nil
+		if bad != "" {
+			res.Fail("C21/ch1/sweep-period", m.N, "NR10=%02x, triggered at frequency %d: %s", uint8(p<<4)|0x08|uint8(sh), f0, bad)
+			return res
+		}
+		res.Probe("square_periods")
+		res.Sig(fmt.Sprintf("sweep/s=%d/p=%d", sh, p))
 	default:
 		// output sequence period at the fastest setting: one clock every 2 machine cycles
 		nr43 := uint8(sc.P("nr43", 0))
